@@ -15,6 +15,19 @@ claim(
     "SQL idiom classification over folded statements + def-use of range bounds + dominance of separator normalisation",
 )
 
+claim(
+    "C10",
+    "Clause level, strong: the read sets of the four cached scheduling definitions are computed by the SQL compiler and every "
+    "write event on a read-set column anywhere in the package (all call sites, triggers, FK cascades) must be covered by a "
+    "flag-setting trigger on that event, an explicit flag update, dirty seeding, or a frozen reasoned exception; plus truth "
+    "tables of the dispatch predicate and the _safe seed, flag consumption before each decision in one transaction, wake-ups, "
+    "job_loop exit condition and the defer cap. This quantifies over all database states and mutation orders, which scripted "
+    "mutation tests cannot. It decides that caches are recomputed when their inputs change, not that the recursive SQL "
+    "definitions compute the intended fixed points, nor liveness under real timing.",
+    STATIC_TB + " Assumes the single-threaded asyncio loop (code between awaits is atomic).",
+    "SQL read-set / write-event coverage via SQLite authorizer + predicate truth tables + path enumeration (must-precede, same-region)",
+)
+
 _PENDING = "rules designed in DESIGN.md section 4 but not implemented yet in this session; no claim is made until the check exists"
-for _pid in ["C01", "C02", "C03", "C04", "C05", "C06", "C07", "C08", "C09", "C10", "C11", "C12", "C13", "C14", "C15", "C16", "C17", "C19", "C20"]:
+for _pid in ["C01", "C02", "C03", "C04", "C05", "C06", "C07", "C08", "C09", "C11", "C12", "C13", "C14", "C15", "C16", "C17", "C19", "C20"]:
     NOT_APPLICABLE[_pid] = _PENDING
